@@ -8,6 +8,9 @@ import CV.Drv.Session
 import CV.Drv.VHost
 import CV.Drv.HttpResp
 import CV.Drv.WebSocket
+import CV.Drv.Http
+import CV.Drv.Poller
+import CV.Drv.Wake
 /-
 cvdriver <model> : reads op lines on stdin, answers one line per op on stdout.
 Imports only CV.Model.* / CV.Drv.* (no Mathlib) so that it links as an executable.
@@ -15,10 +18,11 @@ Imports only CV.Model.* / CV.Drv.* (no Mathlib) so that it links as an executabl
 open CV.Drv
 
 def machines : List (String × Machine) :=
-  [ ("line", lineMachine), ("irc", ircMachine), ("core", coreMachine),
+  [ ("line", lineMachine), ("irc", ircMachine), ("core", CM.coreMachine),
     ("staticpath", staticPathMachine), ("ranges", rangesMachine),
     ("auth", C20.authMachine), ("session", C20.sessionMachine), ("vhost", C20.vhostMachine),
-    ("httpresp", httprespMachine), ("ws", wsMachine) ]
+    ("httpresp", httprespMachine), ("ws", wsMachine),
+    ("http", httpMachine), ("poller", pollerMachine), ("wake", wakeMachine) ]
 
 def main (args : List String) : IO UInt32 := do
   match args with
